@@ -10,6 +10,8 @@ REALS = ("ValueType is modelled by exact reals (type R): every 'equals its defin
          "the size and growth of IEEE rounding error is NOT decided by this check")
 
 UNITS = {
+    "median_abs_dev": dict(tpl="median_abs_dev.rs.tpl", doc="methods::MedianAbsDev over the SMM contract"),
+    "smm": dict(tpl="smm.rs.tpl", doc="methods::SMM with smm::{get, next_half, find_index, find_insert_index}"),
     "ind_psar": dict(tpl="ind_psar.rs.tpl", doc="indicators::ParabolicSAR (+ HLC)"),
     "ind_mfi": dict(tpl="ind_mfi.rs.tpl", doc="indicators::MoneyFlowIndex"),
     "ind_stoch_cmf": dict(tpl="ind_stoch_cmf.rs.tpl", doc="indicators::{ChaikinMoneyFlow, StochasticOscillator}"),
@@ -129,7 +131,7 @@ PROPS = {
     ),
 }
 
-C02_UNITS = ["window", "sma", "simple_window", "wma", "vwma", "st_dev", "mean_abs_dev", "compose_ma", "derived_window", "candle_methods", "ohlcv", "lin_reg", "swma", "conv"]
+C02_UNITS = ["window", "sma", "simple_window", "wma", "vwma", "st_dev", "mean_abs_dev", "compose_ma", "derived_window", "candle_methods", "ohlcv", "lin_reg", "swma", "conv", "median_abs_dev"]
 
 PROPS["C02"] = dict(
     verus=C02_UNITS,
@@ -160,17 +162,23 @@ PROPS["C16"] = dict(
 )
 
 PROPS["C04"] = dict(
-    verus=["highest_lowest", "highest_lowest_index", "window"], kani=["methods"],
+    verus=["highest_lowest", "highest_lowest_index", "smm", "window"], kani=["methods"],
     claim=("Highest, Lowest, HighestLowestDelta, HighestIndex and LowestIndex are verified (Verus, unbounded) against 'the result is an element of "
            "the window and none is larger/smaller' and 'the age of the newest extremal element', with the rescan loops desugared from the real fold "
-           "chains; only comparisons and bit-equality touch the values, so the order model is exact. SMM (and the median in MedianAbsDev) is NOT "
-           "under a deductive contract: it is checked by a bounded Kani harness (window 3, 5 symbolic inputs) reported under bounded_checks."),
+           "chains; only comparisons and bit-equality touch the values, so the order model is exact. SMM is verified (Verus, unbounded: every length, "
+           "every history) against 'the output is the median of the multiset of window values': representation invariant 'slice is sorted and a "
+           "numeric permutation of the window', binary searches find_index / find_insert_index / next_half with decreases clauses, both arms of the "
+           "sorted-slice shift (copy_within / ptr::copy under unsafe_performance). The bounded Kani SMM harnesses remain in the thorough tier as "
+           "bit-level witnesses (both zeros)."),
     assumptions=["order model: comparisons on reals, bit patterns equal iff value and zero-sign equal (bits_axiom); NaN/inf excluded (the methods reject or assert them)",
-                 "SMM: bounded stand-in only (L=3, 5 steps); fn-pointer recursion and SliceIndex-generic `get` were not brought into Verus"],
+                 "SMM: next_half's fn-pointer parameter is specialised mechanically into its two instantiations (rename + //@replace of the call `f(...)`); "
+                 "smm::get's SliceIndex-generic signature is replaced by its two uses (usize index, range-from / range-to) via //@sig; "
+                 "std::ptr::copy on the slice is replaced by slice_copy_within (assumed std contract, same index arithmetic obligations)",
+                 "MedianAbsDev (median_abs_dev unit, C02) is verified over the SMM contract"],
 )
 
 METHOD_UNITS = ["sma", "simple_window", "wma", "vwma", "st_dev", "mean_abs_dev", "compose_ma", "ema", "derived_window",
-                "candle_methods", "highest_lowest", "highest_lowest_index", "lin_reg", "swma", "conv"]
+                "candle_methods", "highest_lowest", "highest_lowest_index", "lin_reg", "swma", "conv", "smm", "median_abs_dev"]
 ALL_VERUS = ["window", "ohlcv"] + METHOD_UNITS + ["indicator_base", "combinators", "converters", "ind_macd", "ind_channels", "ind_rsi", "ind_more", "ind_aroon", "ind_stoch_cmf", "ind_psar", "ind_mfi", "reversal", "indicator_over", "window_serde"]
 
 PROPS["C08"] = dict(
@@ -192,12 +200,15 @@ PROPS["C10"] = dict(
                  "debug assertions are treated as enabled"],
 )
 PROPS["C19"] = dict(
-    verus=["window"], kani=["window"],
+    verus=["window", "smm"], kani=["window"],
     claim=("cfg!(feature = \"unsafe_performance\") is replaced by an unconstrained boolean inside the same extracted functions (rule R6), so every "
            "Window/WindowIterator/ReversedWindowIterator postcondition is proved for both code paths (identical observable results) and every "
            "get_unchecked / get_unchecked_mut carries its in-bounds precondition as an obligation discharged from the representation invariant, "
-           "for all states. The SMM half of the feature (smm::get, ptr::copy) is not under contract."),
-    assumptions=["the std contracts of the unchecked slice operations themselves (slice_get_unchecked*)", "SMM's unsafe path is not covered"],
+           "for all states. The SMM half of the feature is under contract too: both cfg variants of smm::get are extracted (the unchecked one carries "
+           "its in-bounds precondition at every call site in find_index / find_insert_index / next_half / peek), and the ptr::copy arm of SMM::next is "
+           "verified with its source range, destination range and count in bounds and to produce the same sorted slice as the safe arm."),
+    assumptions=["the std contracts of the unchecked slice operations themselves (slice_get_unchecked*, slice_copy_within standing for ptr::copy on one slice)",
+                 "raw-pointer aliasing of ptr::copy is not modelled: the call is replaced (//@replace, listed in the unit's dropped list) by a memmove on the same slice"],
 )
 PROPS["C20"] = dict(
     verus=ALL_VERUS, variants=[("PT_U16",), ("PT_U64",)], thorough_variants=[("PT_U32",)],
@@ -311,12 +322,13 @@ PROPS["C18"] = dict(
 )
 
 PROPS["C15"] = dict(
-    verus=["ma_laws", "sma", "wma", "ema"],
+    verus=["ma_laws", "sma", "wma", "ema", "smm"],
     claim=("Lemmas over the definitions the code is tied to by C02/C03: SMA and WMA (weights (i+1)/(n(n+1)/2), non-negative, summing to 1) are "
            "affine-equivariant (any a, b, negative a included), range-preserving and additive (superposition) for every length; the EMA recurrence is "
            "affine-equivariant, range-preserving (0 < alpha <= 1) and additive step by step, which carries over to DMA/TMA/RMA/WSMA by composition. "
-           "The trait-level facts generic indicators rely on (MovingAverage::convex / within) are proved for SMA, WMA and EMA."),
-    assumptions=[REALS, "SWMA, TRIMA, HMA, LinReg, SMM, Vidya, VWMA, Conv: no law lemmas yet (HMA/TRIMA follow by composition of the WMA/SMA lemmas but that step is not machine-checked)",
+           "The trait-level facts generic indicators rely on (MovingAverage::convex / within) are proved for SMA, WMA and EMA. "
+           "SMM: range preservation (smm_range: the median lies between the bounds of the window values) over the verified median contract."),
+    assumptions=[REALS, "SWMA, TRIMA, HMA, LinReg, Vidya, VWMA, Conv: no law lemmas yet (HMA/TRIMA follow by composition of the WMA/SMA lemmas but that step is not machine-checked)",
                  "MA enum dispatch (MA::init) is not under contract"],
 )
 PROPS["C13"] = dict(
